@@ -520,6 +520,8 @@ theorem fok_clamp (m : P Unit) (hm : FOk (fun _ => True) m) : FOk (fun _ => True
     · rw [if_pos hpos]; exact h
     · rw [if_neg hpos]; trivial
 
+theorem pure_bind' {α β : Type} (a : α) (f : α → P β) : P.bind (P.pure a) f = f a := rfl
+
 /-! #### the potential under the scanner operations of the productions -/
 
 theorem pw_some (t : Tok) : pw (some t) = if t.ty = .end_ then 0 else pwT t := rfl
@@ -550,21 +552,25 @@ theorem U_consume (s : PS) : U (consume s) + pw s.tok = U s := by
   unfold U consume; simp only [pw_none]; omega
 
 /-- next_token inside the productions: the potential does not grow, and the token is now pending -/
-theorem fok_nextTok (o : Opts) (s : PS) : FOk (fun r => U r.2 ≤ U s ∧ r.2.tok = some r.1) (nextTok o s) := by
+theorem fok_nextTok' (o : Opts) (s : PS) :
+    FOk (fun r => (U r.2 ≤ U s ∧ r.2.tok = some r.1) ∧ (∀ t0, s.tok = some t0 → r.1 = t0 ∧ r.2 = s)) (nextTok o s) := by
   unfold nextTok
   cases htok : s.tok with
-  | some t => exact fok_pure _ _ ⟨Nat.le_refl _, htok⟩
+  | some t => exact fok_pure _ _ ⟨⟨Nat.le_refl _, htok⟩, fun t0 h => by cases h; exact ⟨rfl, rfl⟩⟩
   | none =>
     simp only [bind_eq, pure_eq]
     refine fok_bind _ _ _ _ (fok_liftL _ _ (lok_nextToken o.dia s.scan)) ?_
     intro a ha
-    refine fok_pure _ _ ⟨?_, rfl⟩
+    refine fok_pure _ _ ⟨⟨?_, rfl⟩, fun t0 h => by cases h⟩
     obtain ⟨ha, _⟩ := ha
     unfold U
     simp only [htok, pw_none, pw_some]
     rcases ha with ⟨h1, h2⟩ | ⟨h1, _, h3⟩
     · rw [if_pos h1, h2]; simp
     · rw [if_neg h1]; omega
+
+theorem fok_nextTok (o : Opts) (s : PS) : FOk (fun r => U r.2 ≤ U s ∧ r.2.tok = some r.1) (nextTok o s) :=
+  fok_weaken _ _ _ (fok_nextTok' o s) (fun _ h => h.1)
 
 /-- pushing the colon of a KEY / TKEY back: the potential is unchanged, a value token is pending -/
 theorem U_pushColon (s : PS) (t : Tok) (ht : s.tok = some t) (hk : isKeyTok t.ty = true) :
@@ -806,5 +812,191 @@ theorem values_ok (o : Opts) : ∀ fuel, ValuesOk o fuel := by
   | succ fuel ih =>
     exact ⟨fun s h => parseValue_step o fuel ih s h, fun s acc h => listLoop_step o fuel ih s acc h,
            fun s acc h => tableLoop_step o fuel ih s acc h, fun s acc key h => tableEntry_step o fuel ih s acc key h⟩
+
+/-! #### items and loops -/
+
+/-- `fokq [h₁, …]`: productions whose result carries no potential (postcondition `True`) -/
+syntax "fokq" "[" term,* "]" : tactic
+macro_rules
+  | `(tactic| fokq [$hs,*]) => `(tactic| repeat (first
+      | exact fok_pure (fun _ => True) _ trivial
+      | exact fok_fail (fun _ => True) _ (by decide)
+      | exact fok_getCif
+      | exact fok_setCif _
+      | exact fok_report _ _ _
+      | (first $[| exact $hs ..]*)
+      | apply fok_bind (fun _ => True)
+      | apply fok_ite
+      | intro _
+      | split))
+
+theorem fok_setValue (o : Opts) (path : Path) (name : Str) (v : V) : FOk (fun _ => True) (setValue o path name v) := by
+  unfold setValue
+  simp only [bind_eq, pure_eq, pure_bind']
+  fokq []
+
+theorem fok_itemExists (o : Opts) (path : Path) (name : Str) : FOk (fun _ => True) (itemExists o path name) := by
+  unfold itemExists
+  simp only [bind_eq, pure_eq, pure_bind']
+  fokq []
+
+/-- parse_item: the potential does not grow, and drops if a value (or key) token is pending -/
+theorem fok_parseItem (o : Opts) (fuel : Nat) (s : PS) (cont : Option Path) (name : Option Str) (hf : 2 * U s + 1 ≤ fuel) :
+    FOk (fun s' => U s' ≤ U s ∧ (∀ t, s.tok = some t → (isKeyTok t.ty = true ∨ isValueStart t.ty = true) → U s' + 1 ≤ U s))
+      (parseItem o fuel s cont name) := by
+  have hv := (values_ok o fuel).1
+  unfold parseItem
+  simp only [bind_eq, pure_eq, pure_bind']
+  refine fok_bind _ _ _ _ (fok_nextTok' o s) ?_
+  rintro ⟨t, s1⟩ ⟨⟨hU, htok⟩, hid⟩
+  simp only at hU htok hid ⊢
+  -- what follows the value: the item is stored (or not); the state is returned unchanged
+  have tail : ∀ (v : V) (s2 : PS) (q : PS → Prop), q s2 →
+      FOk q (match name, cont with
+        | some n, some path => (setValue o path n v).bind fun _ => P.pure s2
+        | _, _ => P.pure s2) := by
+    intro v s2 q hq
+    split
+    · exact fok_bind _ _ _ _ (fok_setValue o _ _ _) (fun _ _ => fok_pure _ _ hq)
+    · exact fok_pure _ _ hq
+  by_cases hk : isKeyTok t.ty = true
+  · rw [if_pos hk]
+    refine fok_bind _ _ _ _ (fok_report _ _ _) ?_
+    intro _ _
+    have hpc := (U_pushColon s1 t htok hk).1
+    refine fok_bind _ _ _ _ (hv _ (by omega)) ?_
+    intro r (hr : U r.2 + 1 ≤ U (pushColon s1 t (altOf t.ty)).2)
+    exact tail _ _ _ ⟨by omega, fun _ _ _ => by omega⟩
+  · rw [if_neg hk]
+    by_cases hvs : isValueStart t.ty = true
+    · rw [if_pos hvs]
+      refine fok_bind _ _ _ _ (hv s1 (by omega)) ?_
+      intro r (hr : U r.2 + 1 ≤ U s1)
+      exact tail _ _ _ ⟨by omega, fun _ _ _ => by omega⟩
+    · rw [if_neg hvs]
+      refine fok_bind _ _ _ _ (fok_report _ _ _) ?_
+      intro _ _
+      refine tail _ _ (fun s' => U s' ≤ U s ∧ (∀ t, s.tok = some t → (isKeyTok t.ty = true ∨ isValueStart t.ty = true) → U s' + 1 ≤ U s))
+        (And.intro hU (fun t0 ht0 hor => ?_))
+      obtain ⟨e1, _⟩ := hid t0 ht0
+      subst e1
+      rcases hor with h | h
+      · exact absurd h hk
+      · exact absurd h hvs
+
+theorem fok_headerLoop (o : Opts) (cont : Option Path) : ∀ (fuel : Nat) (s : PS) (slots : List (Option Str)),
+    2 * U s + 1 ≤ fuel → FOk (fun r => U r.2 ≤ U s) (headerLoop o cont fuel s slots) := by
+  intro fuel
+  induction fuel with
+  | zero => intro s slots h; omega
+  | succ fuel ih =>
+    intro s slots hf
+    rw [headerLoop]
+    simp only [bind_eq, pure_eq, pure_bind']
+    refine fok_bind _ _ _ _ (fok_nextTok o s) ?_
+    rintro ⟨t, s1⟩ ⟨hU, htok⟩
+    simp only at hU htok ⊢
+    have hc := U_consume s1
+    rw [htok] at hc
+    by_cases hn : t.ty = .name
+    · rw [if_pos hn]
+      have hp := pw_pos t (by rw [hn]; decide)
+      have again : ∀ slots', FOk (fun r => U r.2 ≤ U s) (headerLoop o cont fuel (consume s1) slots') :=
+        fun slots' => fok_weaken _ _ _ (ih (consume s1) slots' (by omega))
+          (fun r (hr : U r.2 ≤ U (consume s1)) => by show U r.2 ≤ U s; omega)
+      have body : ∀ (e : Bool), FOk (fun r => U r.2 ≤ U s) (
+          if e = true then
+            (report CIF_DUP_ITEMNAME s1.scan.line (s1.scan.col - t.text.length)).bind fun _ =>
+              headerLoop o cont fuel (consume s1) (slots ++ [none])
+          else
+            match findHeaderName o slots (cstr t.text) with
+            | some true =>
+              (report CIF_INVALID_ITEMNAME s1.scan.line (s1.scan.col - t.text.length)).bind fun _ =>
+                headerLoop o cont fuel (consume s1) (slots ++ [none])
+            | some false =>
+              (report CIF_DUP_ITEMNAME s1.scan.line (s1.scan.col - t.text.length)).bind fun _ =>
+                headerLoop o cont fuel (consume s1) (slots ++ [none])
+            | none => headerLoop o cont fuel (consume s1) (slots ++ [some (cstr t.text)])) := by
+        intro e
+        by_cases he : e = true
+        · rw [if_pos he]
+          exact fok_bind _ _ _ _ (fok_report _ _ _) (fun _ _ => again _)
+        · rw [if_neg he]
+          split
+          · exact fok_bind _ _ _ _ (fok_report _ _ _) (fun _ _ => again _)
+          · exact fok_bind _ _ _ _ (fok_report _ _ _) (fun _ _ => again _)
+          · exact again _
+      split
+      · exact body false
+      · exact fok_bind _ _ _ _ (fok_itemExists o _ _) (fun e _ => body e)
+    · rw [if_neg hn]
+      exact fok_pure _ _ hU
+
+theorem fok_addPacket (o : Opts) (loopAt : Option Path) (p : List V) : FOk (fun _ => True) (addPacket o loopAt p) := by
+  unfold addPacket
+  simp only [bind_eq, pure_eq, pure_bind']
+  fokq []
+
+theorem fok_packetsLoop (o : Opts) (loopAt : Option Path) (slots : List (Option Str)) : ∀ (fuel : Nat) (s : PS) (k : Pk),
+    2 * U s + 2 ≤ fuel → FOk (fun s' => U s' ≤ U s) (packetsLoop o loopAt slots fuel s k) := by
+  intro fuel
+  induction fuel with
+  | zero => intro s k h; omega
+  | succ fuel ih =>
+    intro s k hf
+    have hv := (values_ok o fuel).1
+    rw [packetsLoop]
+    simp only [bind_eq, pure_eq, pure_bind']
+    refine fok_bind _ _ _ _ (fok_nextTok o s) ?_
+    rintro ⟨t, s1⟩ ⟨hU, htok⟩
+    simp only at hU htok ⊢
+    have hc := U_consume s1
+    rw [htok] at hc
+    have again : ∀ s2 k', U s2 + 1 ≤ U s1 → FOk (fun s' => U s' ≤ U s) (packetsLoop o loopAt slots fuel s2 k') :=
+      fun s2 k' h => fok_weaken _ _ _ (ih s2 k' (by omega)) (fun r (hr : U r ≤ U s2) => by show U r ≤ U s; omega)
+    by_cases hkv : (isKeyTok t.ty || isValueStart t.ty) = true
+    · rw [if_pos hkv]
+      -- the value, then the bookkeeping of the packet
+      have after : ∀ s2, U s2 ≤ U s1 → 2 * U s2 + 1 ≤ fuel →
+          FOk (fun s' => U s' ≤ U s) ((parseValue o fuel s2).bind fun x =>
+            if (k.idx + 1) % slots.length = 0 then
+              (addPacket o loopAt (if (slots.getD k.idx none).isSome = true then k.cur ++ [x.1] else k.cur)).bind fun _ =>
+                packetsLoop o loopAt slots fuel x.2 { idx := 0, some := true, cur := [] }
+            else packetsLoop o loopAt slots fuel x.2
+              { idx := (k.idx + 1) % slots.length, some := k.some,
+                cur := if (slots.getD k.idx none).isSome = true then k.cur ++ [x.1] else k.cur }) := by
+        intro s2 h2 h3
+        refine fok_bind _ _ _ _ (hv s2 h3) ?_
+        intro r (hr : U r.2 + 1 ≤ U s2)
+        by_cases hz : (k.idx + 1) % slots.length = 0
+        · rw [if_pos hz]
+          exact fok_bind _ _ _ _ (fok_addPacket o _ _) (fun _ _ => again _ _ (by omega))
+        · rw [if_neg hz]
+          exact again _ _ (by omega)
+      by_cases hk : isKeyTok t.ty = true
+      · rw [if_pos hk]
+        refine fok_bind _ _ _ _ (fok_report _ _ _) ?_
+        intro _ _
+        have hpc := (U_pushColon s1 t htok hk).1
+        exact after _ (by omega) (by omega)
+      · rw [if_neg hk]
+        exact after s1 (Nat.le_refl _) (by omega)
+    · rw [if_neg hkv]
+      by_cases hcl : (t.ty = .clist || t.ty = .ctable) = true
+      · rw [if_pos hcl]
+        have hp := pw_pos t (by
+          intro he; rw [he] at hcl; simp at hcl)
+        exact fok_bind _ _ _ _ (fok_report _ _ _) (fun _ _ => again _ _ (by omega))
+      · rw [if_neg hcl]
+        by_cases hi : k.idx ≠ 0
+        · rw [if_pos hi]
+          refine fok_bind _ _ _ _ (fok_report _ _ _) (fun _ _ => ?_)
+          exact fok_bind _ _ _ _ (fok_addPacket o _ _) (fun _ _ => fok_pure _ _ hU)
+        · rw [if_neg hi]
+          by_cases hs : (!k.some) = true
+          · rw [if_pos hs]
+            exact fok_bind _ _ _ _ (fok_report _ _ _) (fun _ _ => fok_pure _ _ hU)
+          · rw [if_neg hs]
+            exact fok_pure _ _ hU
 
 end CifModel.Model.Parser
